@@ -270,14 +270,60 @@ func TestVerif_C12_UDPMuxModel(t *testing.T) {
 			pc = c12BaseAP{base}
 		}
 		var mux *UDPMuxDefault
+		var umux *UniversalUDPMuxDefault
 		if universal {
 			// the universal (srflx) mux wraps the socket and embeds the same UDPMuxDefault: routing must be identical
-			mux = NewUniversalUDPMuxDefault(UniversalUDPMuxParams{Logger: lf.NewLogger("verif"), UDPConn: pc}).UDPMuxDefault
+			umux = NewUniversalUDPMuxDefault(UniversalUDPMuxParams{Logger: lf.NewLogger("verif"), UDPConn: pc, XORMappedAddrCacheTTL: time.Hour})
+			mux = umux.UDPMuxDefault
 		} else {
 			mux = NewUDPMuxDefault(UDPMuxParams{Logger: lf.NewLogger("verif"), UDPConn: pc})
 		}
 		defer mux.Close() //nolint:errcheck
 		base.waitReading()
+		// with the universal mux the first source may be a STUN server the mux has already asked for its mapped
+		// address; its later responses are ordinary traffic of whoever writes to that address
+		knownStunServer := false
+		if universal && rapid.Bool().Draw(rt, "firstSourceIsKnownStunServer") {
+			srv := c12Sources[0]
+			got := make(chan error, 1)
+			go func() {
+				_, err := umux.GetXORMappedAddr(net.UDPAddrFromAddrPort(srv), 10*time.Second)
+				got <- err
+			}()
+			var reqTx [stun.TransactionIDSize]byte
+			for d := time.Now().Add(10 * time.Second); time.Now().Before(d); {
+				base.mu.Lock()
+				n := len(base.writes)
+				if n > 0 {
+					m := &stun.Message{Raw: append([]byte{}, base.writes[n-1].data...)}
+					if m.Decode() == nil {
+						reqTx = m.TransactionID
+					}
+				}
+				base.mu.Unlock()
+				if n > 0 {
+					break
+				}
+				time.Sleep(50 * time.Microsecond)
+			}
+			resp, err := stun.Build(stun.BindingSuccess, stun.NewTransactionIDSetter(reqTx), &stun.XORMappedAddress{IP: net.IPv4(203, 0, 113, 77), Port: 7000}, stun.Fingerprint)
+			if err != nil {
+				rt.Fatalf("harness: %v", err)
+			}
+			base.push(c12In{resp.Raw, srv})
+			select {
+			case err := <-got:
+				if err != nil {
+					rt.Fatalf("harness: GetXORMappedAddr: %v", err)
+				}
+			case <-time.After(10 * time.Second):
+				rt.Fatalf("harness: GetXORMappedAddr did not return")
+			}
+			base.mu.Lock()
+			base.writes = nil
+			base.mu.Unlock()
+			knownStunServer = true
+		}
 		var (
 			conns    []*c12ModelConn
 			owner    = map[netip.AddrPort]*c12ModelConn{}
@@ -500,7 +546,7 @@ func TestVerif_C12_UDPMuxModel(t *testing.T) {
 				owner[canon] = c
 			case "inbound":
 				src := c12Sources[rapid.IntRange(0, len(c12Sources)-1).Draw(rt, "src")]
-				kind := rapid.SampledFrom([]string{"stun-registered", "stun-registered", "stun-unregistered", "stun-empty-ufrag", "stun-nousername", "stun-garbage", "data", "data"}).Draw(rt, "kind")
+				kind := rapid.SampledFrom([]string{"stun-registered", "stun-registered", "stun-unregistered", "stun-empty-ufrag", "stun-nousername", "stun-garbage", "data", "data", "stun-success-xor-mapped"}).Draw(rt, "kind")
 				var data []byte
 				ufrag := ""
 				switch kind {
@@ -515,6 +561,16 @@ func TestVerif_C12_UDPMuxModel(t *testing.T) {
 					data = c12Stun("nobody:remote", true)
 				case "stun-empty-ufrag":
 					data = c12Stun(":remote", true)
+				case "stun-success-xor-mapped":
+					// a Binding success response (no USERNAME, valid XOR-MAPPED-ADDRESS): what the peer answers to a check
+					m, err := stun.Build(stun.BindingSuccess, stun.TransactionID, &stun.XORMappedAddress{IP: net.IPv4(203, 0, 113, 78), Port: 7001}, stun.Fingerprint)
+					if err != nil {
+						rt.Fatalf("harness: %v", err)
+					}
+					data = m.Raw
+					if knownStunServer && c12Canon(src) == c12Canon(c12Sources[0]) {
+						lbl["success-response-from-known-stun-server"] = true
+					}
 				case "stun-nousername":
 					data = c12Stun("", false)
 				case "stun-garbage":
